@@ -11,8 +11,9 @@ import io
 
 CLAIMED = True
 CONFIG = {'assumptions': [
-    'DWARFInfo is built directly over BytesIO sections (DebugSectionDescriptor), one stream per section; all ten '
-    'sections are present; no supplementary DWARF object',
+    'DWARFInfo is built directly over BytesIO sections (DebugSectionDescriptor), one stream per section; all sections '
+    'are present except that .debug_types is absent (debug_types_sec=None) in a generated share of the files without v4 '
+    'type units -- the model represents an absent .debug_types as an empty one; no supplementary DWARF object',
     'tag / attribute / form display names are the ones the library tables give (C17 decides the tables); a number '
     'without a name is reported as the integer',
     'domain (certified per case by the Coq wf check through the driver): versions 2-5, standard forms of DWARF 5 '
@@ -55,7 +56,11 @@ RULE = ('cases: (a) one_form: one unit, one entry, one attribute of each standar
         'addr 4/8, LSB/MSB, every header kind, shared/per-unit abbreviation tables at arbitrary offsets, arbitrary codes, '
         'unknown tag/attribute numbers, trees of depth <= 8 and fan-out <= 6, every form incl. indirect chains, LEB128 of '
         '1-10 bytes incl. non-minimal, empty and 300-byte blocks, strings at arbitrary table offsets, index forms with '
-        'base attributes, DW_AT_sibling present/absent in every reference form, references of all three kinds). '
+        'base attributes, DW_AT_sibling present/absent in every reference form, references of all three kinds; the .debug_types section independently '
+        'absent / present-empty / holding v4 type units); (c) sig8_world: worlds with DWARF 5 type units placed anywhere in '
+        '.debug_info, type-signature references (direct and through DW_FORM_indirect) in about half of the abbreviations, '
+        'under each of the three .debug_types states.  In every case each type unit signature is also looked up directly '
+        '(get_DIE_by_sig8, get_TU_by_sig8, each as the first query on a fresh DWARFInfo). '
         'distinct = hash(kind, abstract); non-trivial = at least two entries or an attribute')
 
 STD_FORMS = [0x01, 0x03, 0x04, 0x05, 0x06, 0x07, 0x08, 0x09, 0x0a, 0x0b, 0x0c, 0x0d, 0x0e, 0x0f, 0x10, 0x11, 0x12, 0x13,
@@ -537,7 +542,7 @@ def patch_world(g, ctx, w):
                             target = None
                     else:
                         target = None
-                    if ff == 0x20 and type_units and rng.random() < 0.9:
+                    if ff == 0x20 and type_units and (a.get('sig8') or rng.random() < 0.9):
                         set_int(v, rng.choice(type_units)['sig'])
                         continue
                     if target is None:
